@@ -288,6 +288,7 @@ pub fn execute(scn: &Scenario, ctx: &mut Ctx) {
     let mut group: Option<Group> = None;
     let mut opno = 0u64;
     let mut recs_seen = 0u32;
+    let mut completed = 0u64;
 
     for it in &scn.items {
         let reps = it.u_opt("rep").unwrap_or(1).min(2000);
@@ -437,6 +438,9 @@ pub fn execute(scn: &Scenario, ctx: &mut Ctx) {
                 }
             };
             ctx.log(2 + nocopy as u64, got.out.code(), mix_bytes(got.msgs.len() as u64, &got.rem));
+            if from_buffer && got.out.is_ok() {
+                completed += 1;
+            }
             ctx.trace(2 + nocopy as u64 + ((ctype as u64) << 4), got.out.code() & 0xfffff, record.data.len());
             cell(ctx, &Model { buf: Vec::new(), cur: before_cur }, nocopy as u32, outcome_cell(&got.out));
             if record.data.is_empty() {
@@ -507,6 +511,8 @@ pub fn execute(scn: &Scenario, ctx: &mut Ctx) {
             opno += 1;
         }
     }
+    ctx.count("operations", opno);
+    ctx.count("defragmentations_completed", completed);
 }
 
 fn outcome_cell(o: &Outcome) -> u32 {
